@@ -136,6 +136,23 @@ def run(module, cfg_text=None, cfg_path=None, workers=None, dump=False, coverage
             shutil.copy(os.path.join(SPEC_DIR, cfg_path), cfg)
         else:
             shutil.copy(os.path.join(SPEC_DIR, module + ".cfg"), cfg)
+        # VERIF_SAVE_EXAMPLES=<dir>: keep the first (root module, cfg, generated modules, trace file) of every root module as a
+        # ready-to-run example next to the specification
+        exdir = os.environ.get("VERIF_SAVE_EXAMPLES")
+        if exdir and cfg_text is not None and not os.path.exists(os.path.join(exdir, module + ".cfg")):
+            os.makedirs(exdir, exist_ok=True)
+            with open(os.path.join(exdir, module + ".cfg"), "w") as fh:
+                fh.write(cfg_text)
+            for name, text in (extra_files or {}).items():
+                if len(text) < 400000:
+                    with open(os.path.join(exdir, name), "w") as fh:
+                        fh.write(text)
+            tf = (env or {}).get("TRACE_FILE")
+            if tf and os.path.exists(tf) and os.path.getsize(tf) < 400000:
+                shutil.copy(tf, os.path.join(exdir, module + ".trace.json"))
+            with open(os.path.join(exdir, module + ".cmd"), "w") as fh:
+                fh.write(("TRACE_FILE=%s.trace.json " % module if tf else "") + "java -Xss64m -DTLA-Library=/verif/spec -cp %s tlc2.TLC -workers 8 -metadir /tmp/verif-example-meta -noGenerateSpecTE -config %s.cfg %s.tla\n"
+                         % (JAR, module, module if (module + ".tla") in (extra_files or {}) else "../" + module))
         if workers is None:
             workers = 8
         # TLC unpacks its standard modules into java.io.tmpdir: keep them inside the scratch directory, removed with it
